@@ -194,6 +194,17 @@ def tasks(tier, seed):
             vl.append({'vlong': L, 'pattern': k, 'seed': seed})
     for chunk in core.spread(vl, 32):
         ts.append({'kind': 'list', 'cases': chunk})
+    # numbers that START WITH a digit string written in the library's own source (a rule keyed on an issuer prefix, a
+    # special length, ... can only be reached by a number that carries the value; the value is in the code), at
+    # every length 8..19, with every single-digit change and adjacent swap
+    from vf import literals
+    lit = []
+    for d in literals.harvest()['digits']:
+        for L in range(max(8, len(d) + 1), 20):
+            pay = (d + ''.join('0123456789'[(i * 7 + seed + len(d)) % 10] for i in range(L)))[:L - 1]
+            lit.append({'s': pay, 'edits': True})
+    for chunk in core.spread(lit, 32):
+        ts.append({'kind': 'list', 'cases': chunk})
     for part in range(16):
         ts.append({'kind': 'optimised', 'len': 4 if tier == 'quick' else 5, 'seed': seed, 'part': part, 'of': 16})
     return ts
